@@ -409,6 +409,8 @@ def nextSchedulerEvent (evTime : Int) : SimM SEvent := do
     return ← mkEvent ET.simulatorEnd (evTime + 1)
   else if !running.isEmpty && f.runAtWorkerFree then
     start := max start (minCompletion + 1)
+    if start ≥ f.loopTimeout then
+      return ← mkEvent ET.simulatorEnd f.loopTimeout
   else
     let allBusy ← sched.allM (fun t => do
       let x ← getTask t
